@@ -7,6 +7,7 @@
 
 #include "nmtools/array/index/product.hpp"
 #include "nmtools/array/index/repeat.hpp"
+#include "nmtools/array/index/wrap_axis.hpp"
 
 namespace nmtools::view
 {
@@ -87,7 +88,9 @@ namespace nmtools::view
         auto f = [](const auto& array, const auto& repeats, const auto& axis){
             auto src_shape = shape<true>(array);
             auto src_size  = size<true>(array);
-            auto indexer   = repeater(src_shape,repeats,axis,src_size);
+            // a negative axis counts from the end
+            auto n_axis    = index::wrap_axis(axis,dim<true>(array));
+            auto indexer   = repeater(src_shape,repeats,n_axis,src_size);
             return indexing(array,indexer);
         };
         return lift_indexing(f,array,repeats,axis);
